@@ -229,7 +229,8 @@ Qed.
 Lemma only_store_triggered sc t a d : only (a_user a) t (st (w_store_triggered sc t a d)).
 Proof.
   unfold w_store_triggered. destruct (decrypt (a_blob a) d) as [p|].
-  - apply only_bind; [apply only_store_appointment|]. intros _ t1 _.
+  - destruct (w_store_ok t a); [|apply only_refl].
+    apply only_bind; [apply only_store_appointment|]. intros _ t1 _.
     apply only_bind; [exact (only_handle_breach sc t1 (a_loc a) (a_user a) d p)|]. intros s t2 _.
     destruct (status_rejected s); [exact (only_delete_one t2 (a_loc a) (a_user a) false eq_refl)|apply only_refl].
   - destruct (find_app (db_apps t) (app_uuid a)); [exact (only_delete_one t (a_loc a) (a_user a) false eq_refl)|apply only_refl].
@@ -253,7 +254,7 @@ Proof.
   destruct (find_trk (db_trks t) (loc, u)); [apply only_refl|].
   apply only_bind; [apply only_charge|]. intros charged t1 _.
   destruct charged as [av|]; [|apply only_refl].
-  apply only_bind; [|intros; apply only_refl].
+  cbv zeta. apply only_bind; [|intros; match goal with |- context [if ?c then _ else _] => destruct c end; apply only_refl].
   destruct (ti_get (w_cache t1) loc) as [d|].
   - exact (only_store_triggered sc t1 (mk_app loc u b delay sig (w_height t)) d).
   - exact (only_store_appointment t1 (mk_app loc u b delay sig (w_height t))).
@@ -479,13 +480,22 @@ Proof.
   destruct (aget (db_users t2) u); cbn [rel]; split; try reflexivity; [apply eqv_insert_app|]; exact H.
 Qed.
 
+Lemma eqv_store_ok u t1 t2 a : a_user a = u -> eqv u t1 t2 -> w_store_ok t1 a = w_store_ok t2 a.
+Proof.
+  intros Ha H. unfold w_store_ok.
+  assert (Hu : app_uuid a = (a_loc a, u)) by (unfold app_uuid; rewrite Ha; reflexivity).
+  rewrite Hu, (eqv_find_app u t1 t2 (a_loc a) H).
+  destruct (eqv_fields u t1 t2 H) as [_ [H2 _]]. unfold amem. rewrite Ha, H2. reflexivity.
+Qed.
+
 Lemma rel_store_triggered u sc t1 t2 a d :
   a_user a = u -> eqv u t1 t2 -> rel u (w_store_triggered sc t1 a d) (w_store_triggered sc t2 a d).
 Proof.
   intros Ha H. unfold w_store_triggered.
   assert (Hu : app_uuid a = (a_loc a, u)) by (unfold app_uuid; rewrite Ha; reflexivity).
   destruct (decrypt (a_blob a) d) as [p|].
-  - apply rel_bind; [apply rel_store_appointment; assumption|]. intros _ s1 s2 He.
+  - rewrite (eqv_store_ok u t1 t2 a Ha H). destruct (w_store_ok t2 a); [|cbn [rel]; split; [reflexivity|exact H]].
+    apply rel_bind; [apply rel_store_appointment; assumption|]. intros _ s1 s2 He.
     apply rel_bind; [rewrite Hu; apply rel_handle_breach; exact He|]. intros s s1' s2' He'.
     destruct (status_rejected s); [apply rel_delete; [reflexivity|exact He']|cbn [rel]; split; [reflexivity|exact He']].
   - rewrite Hu, (eqv_find_app u t1 t2 (a_loc a) H).
@@ -515,7 +525,8 @@ Proof.
   apply rel_bind; [apply rel_charge; exact H|]. intros charged s1 s2 He.
   destruct charged as [av|]; [|cbn [rel]; split; [reflexivity|exact He]].
   rewrite (ce_w_height _ _ Hc). pose proof He as [_ Hc']. rewrite (ce_w_cache _ _ Hc').
-  apply rel_bind; [|intros _ s1' s2' He'; cbn [rel]; split; [reflexivity|exact He']].
+  rewrite (eqv_store_ok u s1 s2 (mk_app loc u b delay sig (w_height t2)) eq_refl He). cbv zeta.
+  apply rel_bind; [|intros _ s1' s2' He'; match goal with |- context [if ?c then _ else _] => destruct c end; cbn [rel]; split; try reflexivity; exact He'].
   destruct (ti_get (w_cache s2) loc) as [d|]; [apply rel_store_triggered|apply rel_store_appointment]; try reflexivity; exact He.
 Qed.
 
@@ -599,15 +610,20 @@ Definition add_reply (t : tower) (u loc : N) (b : blob) (sig : N) : add_result :
   end.
 
 Lemma add_reply_spec sc t u loc b delay sig r t' :
+  user_row_ok t u ->
   w_add_appointment sc t (Some u) loc b delay sig = Ok r t' -> r = add_reply t u loc b sig.
 Proof.
-  unfold w_add_appointment, add_reply, authenticate, amem.
+  intros Hrow. assert (Hrow' : aget (gk_users t) u <> None -> amem (db_users t) u = true).
+  { intros Hn. apply Hrow. unfold amem. destruct (aget (gk_users t) u); [reflexivity|contradiction]. }
+  clear Hrow. revert Hrow'.
+  unfold w_add_appointment, add_reply, authenticate. unfold amem at 2. intros Hrow.
   destruct (aget (gk_users t) u) as [ui|] eqn:Eg; cbv beta iota; [|intros H; inversion H; reflexivity].
   unfold gk_get. rewrite Eg.
   destruct (N.leb (u_expiry ui) (gk_height t)); [intros H; inversion H; reflexivity|].
   destruct (find_trk (db_trks t) (loc, u)); [intros H; inversion H; reflexivity|].
   unfold gk_add_update_appointment, gk_get. rewrite Eg. cbv zeta.
   match goal with |- context [if ?c then _ else _] => destruct c end; cbn [bind]; [|intros H; inversion H; reflexivity].
+  rewrite stored_flag_true by (apply store_ok_after_charge; [apply Hrow; discriminate|reflexivity]).
   match goal with |- context [bind ?x _] => destruct x as [[] t2|] end; cbn [bind]; intros H; inversion H. reflexivity.
 Qed.
 
@@ -625,15 +641,16 @@ Qed.
    the gatekeeper's height and the watcher's height: not on the node's answers, not on the caches, not on
    anything of any other user. *)
 Theorem add_reply_depends le t1 t2 sc1 sc2 u loc b delay sig s1 s2 r1 r2 :
+  user_row_ok t1 u -> user_row_ok t2 u ->
   light_eq u t1 t2 ->
   step le t1 (OAdd (Some u) loc b delay sig) sc1 = (s1, OAddRes r1) ->
   step le t2 (OAdd (Some u) loc b delay sig) sc2 = (s2, OAddRes r2) -> r1 = r2.
 Proof.
-  intros Hl. cbn [step]. change (set_rpc_log t1 []) with (fresh t1). change (set_rpc_log t2 []) with (fresh t2).
+  intros Hr1 Hr2 Hl. cbn [step]. change (set_rpc_log t1 []) with (fresh t1). change (set_rpc_log t2 []) with (fresh t2).
   destruct (w_add_appointment sc1 (fresh t1) (Some u) loc b delay sig) as [a1 x1|] eqn:E1; cbn [wrap]; [|discriminate].
   destruct (w_add_appointment sc2 (fresh t2) (Some u) loc b delay sig) as [a2 x2|] eqn:E2; cbn [wrap]; [|discriminate].
   intros H1 H2. inversion H1. inversion H2. subst.
-  rewrite (add_reply_spec _ _ _ _ _ _ _ _ _ E1), (add_reply_spec _ _ _ _ _ _ _ _ _ E2).
+  rewrite (add_reply_spec _ (fresh t1) _ _ _ _ _ _ _ Hr1 E1), (add_reply_spec _ (fresh t2) _ _ _ _ _ _ _ Hr2 E2).
   apply add_reply_light. exact Hl.
 Qed.
 
